@@ -36,6 +36,7 @@ func TestVerifC08Conc(t *testing.T) {
 		// expiry in Filter reads the wall clock; it is irrelevant here (decisions are not verdicts)
 		env := c08NewEnv(c, args, useR3, c08Base)
 		m := c08NewModel(env, r.Range(2, 3), r.Range(4, 8))
+		m.labelLost = true
 		modes := c08AllModes(env)
 		c.Op("args: %s", env.argsString())
 		var nis []*framework.NodeInfo
@@ -157,7 +158,7 @@ func TestVerifC08Conc(t *testing.T) {
 // sequentially afterwards so that a lost pod becomes observable.
 func TestVerifC08Cleanup(t *testing.T) {
 	const rounds = 40
-	kit.Run(t, kit.Config{Property: "C08", Unit: "cleanup", Quick: 1500, Thorough: 40000,
+	kit.Run(t, kit.Config{Property: "C08", Unit: "cleanup", Quick: 800, Thorough: 24000,
 		Rule: "per case 40 rounds, each on a fresh cache: (0) last pod removed (informer delete / terminate / Unreserve) vs NodeMetric add; (1) NodeMetric delete vs pod add (informer add of a bound pod / Reserve); (2) informer delete of the last pod vs Reserve of another pod; (3) all three goroutines; both estimate oracles at quiescence and again after a sequential NodeMetric add; every round is one evaluation; distinct = (variant, removal kind, add kind, report survived, #assigned); non-trivial = every case (each round ends with a complete report and the oracle run)",
 	}, func(c *kit.Case) {
 		r := c.R
@@ -170,6 +171,7 @@ func TestVerifC08Cleanup(t *testing.T) {
 		for round := 0; round < rounds; round++ {
 			env := c08NewEnv(c, args, useR3, c08Base)
 			m := c08NewModel(env, 1, 2)
+			m.labelLost = true
 			node := m.nodes[0]
 			P, Q := m.pods[0], m.pods[1]
 			variant := r.Intn(4)
